@@ -1,5 +1,7 @@
 """Per-property configuration of /verif/bin/check."""
 
+import vftranslators
+
 COMMON_TB = [
     'Coq 8.16.1 kernel + vm_compute (no native_compute); no axioms declared in the development',
     'Go correspondence harness (/verif/harness, go test -overlay, testing/synctest virtual time) and its Gallina literal printer',
@@ -20,5 +22,13 @@ PROPS = {
         trusted_base=['hand-written model Model/SeqnoVal.v of validation_builtin.go BasicSeqnoValidator'],
         assumptions=['sync.RWMutex semantics: the exclusive section is atomic; shared-lock reads see a stable value',
                      'PeerMetadataStore.Get/Put behave as a map (the harness store does)'],
+    ),
+    'C15': dict(
+        coq=['Props/C15', 'Run/C15Run', 'Model/RpcQueueIR'],
+        translators=[vftranslators.tr_rpcqueue],
+        go=[dict(run='^TestVF_C15$')],
+        trusted_base=['hand-written transition system Model/RpcQueue.v; translator /verif/tools/rpcqueue2ir (go/ast) and the pinned skeleton Model/RpcQueueIR.v from which the transition system was derived by hand'],
+        assumptions=['sync.Mutex / sync.Cond / context.AfterFunc semantics as modelled (critical sections without Wait are atomic; Signal wakes one waiter, Broadcast all; AfterFunc runs in its own goroutine after cancellation)',
+                     'AfterFunc un-registration on return is not modelled (superset of behaviours)'],
     ),
 }
